@@ -313,7 +313,7 @@ class Check:
 
     def finish(self, level="proof", checker_cmd="", trusted=None, rule="", assumptions=None,
                extra_cov=None):
-        kf_path = os.path.join(ROOT, "KNOWN_FINDINGS.json")
+        kf_path = os.path.join(ROOT, "known_findings", self.pid + ".json")
         known = []
         if os.path.exists(kf_path):
             known = [k for k in json.load(open(kf_path)).get("findings", [])
